@@ -10,7 +10,11 @@ import (
 func getErr(meta any) any {
 	switch metaValue := meta.(type) {
 	case *confirmed_block.TransactionStatusMeta:
-		out, _ := solanaerrors.ParseTransactionError(metaValue.Err)
+		out, err := solanaerrors.ParseTransactionError(metaValue.Err)
+		if err != nil && metaValue.Err != nil && len(metaValue.Err.Err) > 0 {
+			// a recorded error that cannot be rendered is still an error
+			return map[string]any{"err": metaValue.Err.Err}
+		}
 		if out == nil {
 			return nil // an untyped nil: callers test the result with `== nil`
 		}
